@@ -14,6 +14,9 @@ Proof.
   - exists []. rewrite app_nil_r. unfold fail_machine. destruct (s_status s); reflexivity.
 Qed.
 
+Lemma Rq_hist H s : Rq s (with_hist H s).
+Proof. exists []. now rewrite app_nil_r. Qed.
+
 (* ---- nor does it begin another event: no OBegin record is written inside the processing of an event ---- *)
 Definition begins (s : st) : list (string * nat) :=
   List.concat (map (fun o => match o with OBegin ty tag => [(ty, tag)] | _ => [] end) (rev (s_log s))).
@@ -31,18 +34,21 @@ Proof.
   - unfold fail_machine. destruct (s_status s); try reflexivity; rewrite !begins_logo; simpl; now rewrite !app_nil_r.
 Qed.
 
+Lemma Rb_hist H s : Rb s (with_hist H s).
+Proof. reflexivity. Qed.
+
 (* one event: process it, then settle the eventless follow-ups *)
 Definition macrostep (eng : engine) (m : machine) (ev : event) : M :=
   process_event eng true m ev ;; settle (m_max_iter m) eng true m.
 
 Lemma macrostep_appends eng m ev s : Rq s (fst (macrostep eng m ev s)).
 Proof.
-  unfold macrostep. apply (pres_bind Rq (p_trans Rq Rq_prims)); [apply (f_process_event Rq Rq_prims) | apply (f_settle Rq Rq_prims)].
+  unfold macrostep. apply (pres_bind Rq (p_trans Rq Rq_prims)); [apply (f_process_event Rq Rq_prims Rq_hist) | apply (f_settle Rq Rq_prims Rq_hist)].
 Qed.
 
 Lemma macrostep_no_begin eng m ev s : Rb s (fst (macrostep eng m ev s)).
 Proof.
-  unfold macrostep. apply (pres_bind Rb (p_trans Rb Rb_prims)); [apply (f_process_event Rb Rb_prims) | apply (f_settle Rb Rb_prims)].
+  unfold macrostep. apply (pres_bind Rb (p_trans Rb Rb_prims)); [apply (f_process_event Rb Rb_prims Rb_hist) | apply (f_settle Rb Rb_prims Rb_hist)].
 Qed.
 
 Definition ev_id (e : event) : string * nat := (e_type e, e_tag e).
